@@ -455,6 +455,8 @@ impl<R: BufRead + Seek> WebPDecoder<R> {
                         Ok(Some(chunk)) => {
                             let mut cursor = Cursor::new(chunk);
                             cursor.read_exact(&mut info.background_color)?;
+                            // the container stores the background colour as [Blue, Green, Red, Alpha]
+                            info.background_color.swap(0, 2);
                             self.loop_count = match cursor.read_u16::<LittleEndian>()? {
                                 0 => LoopCount::Forever,
                                 n => LoopCount::Times(NonZeroU16::new(n).unwrap()),
